@@ -99,7 +99,13 @@ func Plan(out string, seed uint64, tier string, scenario string, count int, epoc
 		perScenario[n]++
 		r := master.Fork()
 		pr := ChainParams{Scenario: Scenarios[n], Dir: ChainDir(out, n, k), Name: fmt.Sprintf("%s-%d", n, k), Seed: seed, Rng: r, Epochs: epochs}
-		pr.Plain = !quick && i%10 == 9 || quick && n == "basic" && seed%4 == 3
+		pr.Plain = !quick && i%10 == 9 || quick && i == 5 && seed%4 == 3
+		// cancellation-sweep coverage is shared between the chains of a run: quick chains take two forks each (every fork
+		// twice per run), thorough chains one
+		pr.CoverForks[i%5] = true
+		if quick {
+			pr.CoverForks[(i+2)%5] = true
+		}
 		pr.Corrupt = (totalCorrupt + len(names) - 1) / len(names)
 		pr.Cancel = (totalCancel + len(names) - 1) / len(names)
 		pr.Engine = (totalEngine + len(names) - 1) / len(names)
